@@ -104,6 +104,7 @@ func init() {
 	intrinsics["gopkg.in/yaml.v3.Marshal"] = marshal
 	intrinsics["gopkg.in/yaml.v3.Unmarshal"] = unmarshal
 	intrinsics["encoding/json.Marshal"] = marshal
+	intrinsics["encoding/json.MarshalIndent"] = marshal
 	intrinsics["encoding/json.Unmarshal"] = unmarshal
 
 	// verif_strings_of(v): every string reachable inside v (for "no secret anywhere in the output")
